@@ -117,6 +117,7 @@ type verdict struct {
 
 func verify(c *core.Ctx, e *signedexchange.Exchange, t time.Time, n *certNet) verdict {
 	var v verdict
+	n.served = nil // what the certificate server hands out during THIS verification
 	v.pi, v.alloc = c.GuardAlloc("Exchange.Verify", func() { v.payload, v.ok = e.Verify(t, n.fetch, quiet) })
 	return v
 }
@@ -188,6 +189,22 @@ func TestClean(t *testing.T) {
 			if c.Chance("sharedCertURL", 1, 3) {
 				// the publisher rotates certificates at one stable cert-url
 				l.CertURL = "https://cert.example/current.cbor"
+			}
+			if c.Chance("reusedSigner", 1, 4) {
+				// the publisher keeps one Signer object and has just used it for an exchange of
+				// another format version (same certificate, validity URL, date and expiry)
+				l.SignerObj = l.Signer()
+				sib := *l
+				for _, v := range []string{"1b1", "1b2", "1b3"} {
+					if v != l.Version && c.Bool("reusedSigner.first."+v) {
+						sib.Version = v
+						if v == "1b3" {
+							sib.Method, sib.ReqHeaders = "GET", nil
+						}
+						sib.Sign()
+					}
+				}
+				c.Probe("one Signer object used for several versions")
 			}
 			if pi := c.Guard("publisher.Sign", func() { pub, err = l.Sign() }); pi != nil {
 				c.CheckTotal("publisher.Sign", 0, pi, 0)
@@ -539,7 +556,7 @@ func editSignature(c *core.Ctx, w *world, l *gen.LSXG, sig string) (string, stri
 		}
 		return -1
 	}
-	op := c.PickStr("sigedit.op", "sig-bit", "cert-sha256-bit", "cert-sha256-foreign", "cert-url-foreign", "validity-url", "date", "expires", "window-shift", "integrity", "drop-param", "second-signature", "label", "sig-trailing")
+	op := c.PickStr("sigedit.op", "sig-bit", "cert-sha256-bit", "cert-sha256-foreign", "cert-url-foreign", "validity-url", "date", "expires", "window-shift", "integrity", "drop-param", "second-signature", "label", "sig-trailing", "timestamp-absolute")
 	switch op {
 	case "sig-bit", "cert-sha256-bit":
 		k := map[string]string{"sig-bit": "sig", "cert-sha256-bit": "cert-sha256"}[op]
@@ -575,6 +592,13 @@ func editSignature(c *core.Ctx, w *world, l *gen.LSXG, sig string) (string, stri
 		ps[idx("date")].Raw = refsxg.RawInt(l.Date + c.PickI64("sigedit.ddate", -100000, -1, 1, 100))
 	case "expires":
 		ps[idx("expires")].Raw = refsxg.RawInt(l.Expires + c.PickI64("sigedit.dexp", -1, 1, 100, 1000000, 604800))
+	case "timestamp-absolute":
+		// absolute values at the edges of the integer range (negative, zero, extremes)
+		vals := []int64{-1, 0, -1 << 63, 1<<63 - 1, -604800, 1}
+		ps[idx("date")].Raw = refsxg.RawInt(vals[c.Pick("sigedit.absDate", len(vals))])
+		if c.Bool("sigedit.absBoth") {
+			ps[idx("expires")].Raw = refsxg.RawInt(vals[c.Pick("sigedit.absExpires", len(vals))])
+		}
 	case "window-shift":
 		d := c.PickI64("sigedit.shift", -1000000, 1000000, 3600)
 		ps[idx("date")].Raw = refsxg.RawInt(l.Date + d)
